@@ -110,6 +110,26 @@ Proof.
   apply hull_no_overflow; assumption.
 Qed.
 
+(* round 8: the same at batch level.  The as-written walk models the one-row overwrite an overflowing label
+   would cause; inside the bound the whole as-written batch kernel equals the exact one
+   (C02_batch_wrap_transfer), so its overflow flag is false for every accepted buffer and index list. *)
+Theorem hull_write_bound_as_written : forall M ijv indexes, M * M < 2147483648 ->
+  (forall x, In x ijv -> HullWrap.inbox M (r_pt x)) -> kernel_pre_hull ijv indexes = true ->
+  snd (HullW.convex_hull_ijv_w ijv indexes) = false.
+Proof.
+  intros M ijv indexes HM Hbox Hp.
+  rewrite (Centro.Props.C02.C02_batch_wrap_transfer M ijv indexes HM Hbox).
+  apply hull_write_bound. exact Hp.
+Qed.
+
+Example hull_write_bound_as_written_ex :
+  let ijv := [((0,0),1); ((0,2),1); ((2,1),1); ((1,1),1); ((5,5),2)] in
+  5 * 5 < 2147483648 /\ (forall x, In x ijv -> HullWrap.inbox 5 (r_pt x)) /\ kernel_pre_hull ijv [2; 1] = true.
+Proof.
+  cbv zeta. split; [lia|]. split; [|vm_compute; reflexivity].
+  intros x H; cbn in H; repeat (destruct H as [H|H]; [subst x; unfold HullWrap.inbox; cbn; lia|]); contradiction.
+Qed.
+
 (* ------------------------------------------------------------------ round 7 (finding F36): the model-side
    statement.  An index list that lists a label twice — in particular one that repeats the LARGEST
    label, on which the kernel evaluates labels_ijv[pixidx, 2] with pixidx = number of rows — does not
